@@ -242,14 +242,19 @@ func init() {
 }
 
 func runClusterCheck(t *testing.T, name, rule string, healthy bool) {
+	runClusterCheckFor(t, "C08", name, rule, healthy, nil)
+}
+
+// runClusterCheckFor: keep (optional) restricts the violation kinds reported under another property.
+func runClusterCheckFor(t *testing.T, property, name, rule string, healthy bool, keep map[string]bool) {
 	pbt.Run(t, pbt.Spec[sim.ClusterScenario]{
-		Property: "C08", Name: name, Rule: rule,
+		Property: property, Name: name, Rule: rule,
 		Gen: func(t *rapid.T) sim.ClusterScenario { return sim.GenClusterScenario(t, healthy) },
 		Exec: func(sc sim.ClusterScenario) (res pbt.Result) {
 			tr := sim.RunCluster(pbt.T(), &sc)
 			vs, st := sim.JudgeCluster(&sc, tr)
 			for _, v := range vs {
-				if c08Kinds[v.Kind] {
+				if c08Kinds[v.Kind] && (keep == nil || keep[v.Kind]) {
 					res.Add(v.With("trace", sim.DumpCluster(&sc, tr)))
 				}
 			}
@@ -285,6 +290,14 @@ func runClusterCheck(t *testing.T, name, rule string, healthy bool) {
 
 func TestC08Healthy(t *testing.T) {
 	runClusterCheck(t, "C08Healthy", "2-3 real instances in one bubble (one clock) with a harness-owned gossip network; healthy synchronised runs: every post goes to all instances, no crash/partition/loss, gossip delay < peer_timeout/2, consistent positions (any permutation), instantaneous deliveries; one three-instance run in three has one link cut from the start, so that two instances hear each other only through the third (each instance gossips what it merges for the first time: two hops, still faster than the peer timeout; runs of this kind with oversized entries, which are not passed on, are judged as faulty runs). Oracle: the justification rule A.9 over the UNION of all instances' deliveries (the cluster looks like one instance) and the conditional form per attempt. Non-trivial: n>=2 and only one instance ever sent while deliveries happened (cross-instance dedup).", true)
+}
+
+// C04Cluster: "the same group state is sent again only if more than repeat_interval has passed since the previous one
+// was delivered" when the receiver is served by a healthy cluster: whichever instance delivered the previous
+// notification, the others know (the log entry is gossiped, also when only its timestamp changed) and stay silent.
+func TestC04Cluster(t *testing.T) {
+	runClusterCheckFor(t, "C04", "C04Cluster", "the healthy synchronised cluster runs of C08Healthy (2-3 real instances, one clock, harness-owned gossip with delays below half the peer timeout, every post to all instances; scenarios long enough for repeat_interval to pass several times). Judged here: over the union of all instances' deliveries no group state is delivered twice within repeat_interval (kinds duplicate-in-healthy-cluster, sent-although-log-covers, harness-or-api-error); the known finding F15 applies as in C08Healthy. Non-trivial: as C08Healthy.", true,
+		map[string]bool{"duplicate-in-healthy-cluster": true, "sent-although-log-covers": true, "harness-or-api-error": true})
 }
 
 func TestC08Faulty(t *testing.T) {
